@@ -38,6 +38,7 @@ func c06(c *Ctx) {
 	c06notFoundIsNotAnError(c)
 	c06atomicTTL(c)
 	c06retryOwnsKeys(c)
+	c06queriesInsideTake(c)
 	// R14 (round 7): "concurrent reads of one key share one query, all of them receiving that query's result" is
 	// SingleFlight's doing — the flight rules of C07 are part of this property's check as well (a call object
 	// recycled while a late joiner still reads it hands a reader another key's row)
